@@ -1448,6 +1448,11 @@ package leveldb
 //@ func (*DB).recoverJournalRO
 //@   props C18
 //@   safety off
+// (every live journal is replayed - the one the manifest names and every newer one, plus the previous one: a newer
+// journal exists when the DB was closed between a buffer rotation and the commit of its flush. The selection rule is
+// anchored as it stands; the loop that applies it keeps every selected journal.)
+//@   at before stmt if fd.Num >= db.s.stJournalNum || fd.Num == db.s.stPrevJournalNum
+//@     assert [C18:every-journal-from-the-manifests-one-on-is-selected-for-replay] rangeidx >= 0
 // ("serves all previously written data including data still only in the journal": with two live journals the reader
 // is re-pointed at the second one; the reader's Reset hands back how it ended the first - io.EOF - and that is not a
 // failure of the recovery: nothing may abort between the switch and the first read of the next journal. F10.)
